@@ -31,6 +31,18 @@ CLAIMS = {
    text="Lean theorems on tryReflink/classifyClone/fileProgram: never issues no clone whatever the kernel would answer; always succeeds only through a successful clone with no data call and fails when cloning is unsupported, errors or the backend lacks it; auto issues the clone first and on exactly EOPNOTSUPP/EINVAL/EXDEV/ETXTBSY falls back to the data copy (byte-exact by C01/C05); other clone errors fail; the per-file trace monitor accepts every model program (soundness theorem) and is evaluated on real traces. Tied to /repo with FICLONE answered by ext4, by each unsupported errno, by hard errors, or emulated as successful by the supervisor.",
    note="Lean kernel, standard axioms; successful clone emulated by a whole-file kernel copy; sampling.",
    tech="Lean 4 theorems (decision logic + monitor soundness) + trace-monitor correspondence with injected/emulated ioctl answers", ref='§3 C15'),
+ 'C11': dict(
+   text="PARTIAL by nature (allocation is the file system's): Lean theorems that both drivers write only inside the data ranges reported for the source — SEEK_DATA/HOLE segments (parfile, any legal seek oracle and kernel), merged FIEMAP extents (parblock; merging adds only C19's one-byte gaps), for every block size — that a block job writes only inside its block, that an all-hole file writes nothing, and that create+ftruncate forgets a previous allocation. Measured on every run: st_blocks(dst) vs st_blocks(src), destination data map within the source's, for layouts with 1..64 MiB holes (200 MiB thorough), >32 extents, block sizes straddling segments, fresh and fully allocated destinations, both drivers; calls replayed through the model.",
+   note="Lean kernel, standard axioms; 'unwritten ranges of a truncated file occupy no storage' is ext4's contract, measured not proved; sampling.",
+   tech="Lean 4 theorems (written ranges ⊆ reported data ranges) + measured allocation and trace-replay correspondence", ref='§3 C11'),
+ 'C18': dict(
+   text="Lean theorems over EVERY label sequence (schedule) of a concurrent model of the parblock dispatcher and bounded pool (Arc counts, queue, running jobs, event log) and of the parfile workers: no write of a handle follows its finalisation or fsync; with fsync on every close is immediately preceded by finalise, fsync; in every final state each file has an fsync after all of its block writes (each block written exactly once); every schedule terminates (exact step count) and never deadlocks; without the option no fsync is logged; the sequential per-file program ends with fsync. Tied to /repo by real --fsync runs under perturbed schedules (seeded delays / priority holds at system-call boundaries, stalled copy_file_range), workers 1..16, multi-block and sparse files: per destination the fsync is entered after every data call has returned, and the per-file monitor (sound for the model by theorem) accepts the projection.",
+   note="Lean kernel, standard axioms; the thread structure of the model is transcribed from the source (Arc/Drop, blocking_threadpool, crossbeam assumed as documented); perturbed schedules sample real interleavings.",
+   tech="Lean 4 theorems (inductive invariants over a small-step concurrent model, all schedules) + schedule-perturbed trace correspondence", ref='§3 C18'),
+ 'C20': dict(
+   text="Lean theorems over every schedule of the dispatcher/pool model: open handles <= queue capacity + workers + 1 whatever the number of files (parfile: <= workers); with capacity 128 and <= 64 workers 2*handles+16 < 1024; the bound is attained in the model. Tied to /repo by runs over 400..3000 (thorough 20000) files under RLIMIT_NOFILE=1024 with the supervisor counting open descriptors: exit 0, measured peak <= model bound, and with stalled pool threads the peak reaches exactly the capacity-dependent level 2*(128+workers+1) (so a changed queue length or a leaked handle is a disagreement).",
+   note="Lean kernel, standard axioms; descriptors = 2 per handle + constant; model thread structure transcribed from the source; sampling of schedules.",
+   tech="Lean 4 theorems (Arc-count invariant, all schedules) + measured descriptor peaks under rlimit", ref='§3 C20'),
 }
 PENDING = "check not built yet in this session (planned: Lean model + theorems + correspondence, see DESIGN.md §3); not claimed until it runs"
 ALL = [f'C{i:02d}' for i in range(1, 21)]
